@@ -142,6 +142,9 @@ fn classes() -> Vec<Class> {
         c("typed_trailing", "/typed", true, 1, 2, br#"{"a":5}{"a":6}"#),
         c("typed_trailing_utf8", "/typed", true, 1, 3, br#"{"a":5} ]"#),
         c("json_trailing", "/json", true, 1, 2, br#"{"a":5} x"#),
+        // a body framed as UTF-8 text that is not UTF-8 (the bad byte sits inside a JSON string): undecodable on every path
+        c("json_utf8_badbyte", "/json", true, 1, 3, b"{\"a\":\"x\xffy\"}"),
+        c("ctx_utf8_badbyte", "/ctx", true, 1, 3, b"{\"a\":\"x\xffy\"}"),
         c("ctx_ok", "/ctx", true, 1, 2, br#"{"a":5}"#),
         c("slice_ok", "/slice", false, 1, 1, &f64s),
         c("slice_wrongtype", "/slice", false, 1, 1, &i32s),
@@ -310,6 +313,63 @@ pub fn c02_timeouts(a: &Args) -> i32 {
             cases.push(json!({"server": kind, "junk": junk, "write_ok": wrote, "response_bytes": got, "dispatched": hits.load(Ordering::SeqCst)}));
         }
     }
+    util::write_json(&a.req("out"), &json!({"cases": cases}));
+    rt.shutdown_timeout(Duration::from_secs(1));
+    0
+}
+
+/// C02 on the wire: a self-consistent header that declares a frame no machine can hold (2^62, 2^63, nearly 2^64 bytes)
+/// arrives at each TCP server, with and without a read timeout configured (separate read paths).  The server must
+/// neither abort the process nor panic; it answers or drops that connection, and keeps serving others.
+/// Run in a process of its own: an abort of the code under test ends THIS process, and the caller reports that.
+pub fn c02_huge(a: &Args) -> i32 {
+    use std::sync::atomic::AtomicU64 as A64;
+    static PANICS: A64 = A64::new(0);
+    std::panic::set_hook(Box::new(|_| { PANICS.fetch_add(1, Ordering::SeqCst); }));
+    let rt = tokio::runtime::Builder::new_multi_thread().worker_threads(2).enable_all().build().unwrap();
+    let mut cases = vec![];
+    let progress = a.str("progress", "");
+    for kind in ["server", "server_read_timeout", "async_server", "async_server_read_timeout"] {
+        for b in [1u64 << 62, 1u64 << 63, u64::MAX - 48] {
+            if !progress.is_empty() { let _ = std::fs::write(&progress, format!("{kind} body_length={b}")); }
+            let router = Router::new().with_json("/json", move |v| Ok(v));
+            let to = if kind.ends_with("read_timeout") { Some(Duration::from_millis(150)) } else { None };
+            let addr = if kind.starts_with("server") {
+                let l = std::net::TcpListener::bind("127.0.0.1:0").unwrap();
+                let addr = l.local_addr().unwrap();
+                std::thread::spawn(move || { let _ = Server::new(router).read_timeout(to).serve(l); });
+                addr
+            } else {
+                let l = rt.block_on(AsyncServer::listen("127.0.0.1:0")).unwrap();
+                let addr = l.local_addr().unwrap();
+                rt.spawn(async move { let _ = AsyncServer::new(router).read_timeout(to).serve(l).await; });
+                addr
+            };
+            std::thread::sleep(Duration::from_millis(20));
+            let before = PANICS.load(Ordering::SeqCst);
+            let mut s = TcpStream::connect(addr).unwrap();
+            s.set_nodelay(true).ok();
+            let mut m = Message::builder().id(5).query_str("").build();
+            m.header.query_format = 1;
+            let mut h = m.to_vec();
+            h[0..8].copy_from_slice(&48u64.wrapping_add(b).to_le_bytes());
+            h[32..40].copy_from_slice(&b.to_le_bytes());
+            let _ = s.write_all(&h[..48]);
+            let _ = s.write_all(&[0u8; 64]);
+            s.set_read_timeout(Some(Duration::from_millis(700))).ok();
+            let mut buf = vec![0u8; 4096];
+            let got = s.read(&mut buf).unwrap_or(0);
+            // the server still serves a new connection
+            let mut s2 = TcpStream::connect(addr).unwrap();
+            let mut ok = Message::builder().id(77).query_str("/json").body_json(&json!({"a": 5})).unwrap().build();
+            ok.header.query_format = 1;
+            let _ = s2.write_all(&ok.to_vec());
+            s2.set_read_timeout(Some(Duration::from_secs(3))).ok();
+            let alive = repe::read_message(&mut s2).map(|r| r.header.id == 77 && r.header.ec == 0).unwrap_or(false);
+            cases.push(json!({"server": kind, "body_length": b.to_string(), "reply_bytes": got, "alive": alive, "panics": PANICS.load(Ordering::SeqCst) - before}));
+        }
+    }
+    let _ = std::panic::take_hook();
     util::write_json(&a.req("out"), &json!({"cases": cases}));
     rt.shutdown_timeout(Duration::from_secs(1));
     0
